@@ -1,6 +1,7 @@
 package props
 
 import (
+	"context"
 	"errors"
 	"fmt"
 	"sort"
@@ -824,3 +825,87 @@ func TestC13Closed(t *testing.T) {
 }
 
 var _ = errors.Is
+
+// ---------- C10: Build cancelled through its context ----------
+
+func TestC10BuildCancel(t *testing.T) {
+	col := evid.New("C10", "build-cancelled", "singleton- and disposable-rich configurations built with BuildWithContext; the context is cancelled from inside the k-th constructor invocation of the Build (every k for small cases, random otherwise) or before Build starts; oracle: no panic; if Build fails the error wraps context.Canceled and every disposable constructed so far is closed exactly once by the time Build returns (failed-Build path of C10); if it succeeds the provider works and everything is closed exactly once at provider close; non-trivial = cancellation after >=1 disposable was constructed")
+	defer col.Flush()
+	rapid.Check(t, func(rt *rapid.T) {
+		o := dispOpts()
+		o.Lifetimes = []int{kit.Singleton, kit.Singleton, kit.Singleton, kit.Scoped, kit.Transient}
+		cfg := kit.GenConfig(rt, o)
+		// dry run: how many constructor invocations does Build perform?
+		dry, err := startRun(kit.CloneConfig(cfg), nil)
+		if err != nil {
+			rt.Fatal(err)
+		}
+		if dry.Build.Err != nil || dry.Build.Panic != nil {
+			col.Case(false, cfg.String(), nil, "build-failed(not judged here)")
+			return
+		}
+		n := len(dry.W.AllInvs())
+		dry.R.CloseProvider()
+		ks := []int{rapid.IntRange(0, n).Draw(rt, "k")}
+		if n <= 8 && rapid.IntRange(0, 2).Draw(rt, "all") == 0 {
+			ks = ks[:0]
+			for k := 0; k <= n; k++ {
+				ks = append(ks, k)
+			}
+		}
+		for _, k := range ks {
+			w, _ := kit.NewWorld(kit.CloneConfig(cfg))
+			r := kit.NewRunner(w)
+			ctx, cancel := context.WithCancel(context.Background())
+			seen := 0
+			if k == 0 {
+				cancel()
+			}
+			w.SetGate(func(gp kit.GatePoint) {
+				if gp.Kind == kit.GateCtorExit {
+					seen++
+					if seen == k {
+						cancel()
+					}
+				}
+			})
+			x := &run{Cfg: w.Cfg, W: w, M: w.M, R: r}
+			x.Build = r.BuildWithContext(ctx)
+			w.SetGate(nil)
+			made := 0
+			for _, e := range x.containerMade() {
+				if kit.IsDisposable(e.Impl) {
+					made++
+				}
+			}
+			canon := fmt.Sprintf("%s || cancel at constructor %d of %d", cfg, k, n)
+			col.Case(made > 0 && x.Build.Err != nil, canon, canon, fmt.Sprintf("build-failed=%v", x.Build.Err != nil))
+			var f *Failure
+			switch {
+			case x.Build.Panic != nil:
+				f = fail("C10", "no-panic", "build-cancel", "BuildWithContext panicked: %v", x.Build.Panic)
+			case x.Build.Err != nil:
+				if !errors.Is(x.Build.Err, context.Canceled) {
+					f = fail("C10", "build-cancel", "error-class", "Build failed after cancellation with %v, which does not wrap context.Canceled", firstLine(x.Build.Err))
+				} else {
+					f = x.checkC10(true)
+				}
+			default:
+				x.exec(Op{Kind: "create", Scope: 0, Ctx: 1})
+				for _, id := range x.M.AllIdents() {
+					x.exec(Op{Kind: "get", Scope: 1, Ident: id})
+				}
+				x.exec(Op{Kind: "pclose"})
+				f = x.checkC10(true)
+			}
+			cancel()
+			if f != nil {
+				if isKnown(f) {
+					col.Excluded()
+					continue
+				}
+				rt.Fatalf("VIOLATION %s\n%s", f, canon)
+			}
+		}
+	})
+}
